@@ -832,6 +832,41 @@ theorem runB_hook_partial (bound dh : Bool) (tbl : List MethodRec) (O : Oracles)
     exact runB_hook_partial bound dh tbl O c fields htbl rest _ hops.2
       (stepB_hook bound dh tbl O c fields s _ op _ htbl hops.1.1 hops.1.2 hs rfl)
 
+/-! ### the repaired tree (fix window 1: cbf3b48 nested wrappers re-assign their parent, 613f11f
+    `__delitem__` runs the hook).  A `fixed` entry suppresses nothing: should a later change undo a
+    repair, the probes flip, these obligations break and the oracle reports the failing history. -/
+
+theorem fixed_nested_bound_today : Generated.nestedBound = true := by decide
+
+theorem fixed_delitem_hook_today : Generated.delitemHook = true := by decide
+
+/-- for the current tree the statement holds at FULL strength: every finite history of operations —
+    nested calls at any depth included, no exclusion — keeps a well-formed instance well-formed -/
+theorem fixed_full_statement_current :
+    FullStatement Generated.nestedBound Generated.delitemHook Generated.wrappers := by
+  rw [fixed_nested_bound_today]
+  exact full_statement_bound _ _ tables_ok
+
+/-- … and the class's hook keeps accepting the instance over every history of assignments to
+    declared fields, deletions and (nested) wrapper mutators -/
+theorem fixed_hook_invariant_current (O : Oracles) (c : ClassOpts) (fields : List (String × FieldDecl))
+    (ops : List Op) (s : Attrs)
+    (hops : ops.all (fun op => match op with | .setattr f _ => (lookup f fields).isSome | _ => true) = true)
+    (hs : O.hookOk s = true) :
+    O.hookOk (runB Generated.nestedBound Generated.delitemHook Generated.wrappers O c fields s ops).1 = true := by
+  refine runB_hook_partial _ _ Generated.wrappers O c fields tables_ok ops s ?_ hs
+  rw [List.all_eq_true] at hops ⊢
+  intro op hop
+  have h1 := hops op hop
+  have hb : OpOk Generated.nestedBound Generated.wrappers fields op = true := by
+    simp [OpOk, fixed_nested_bound_today]
+  rw [hb, Bool.and_true]
+  cases op with
+  | setattr f v => simpa [HookOp] using h1
+  | delitem f => simp [HookOp, fixed_delitem_hook_today]
+  | call f m => rfl
+  | callNested f k m => rfl
+
 /-! ### kept wrapper references (stale wrappers) -/
 
 /-- **refinement**: a mutator called on a kept reference behaves exactly like a validated assignment
